@@ -22,7 +22,7 @@ func init() {
 			StatesMean:  "(history, trace prefix) pairs; transitions = real Next calls and host writes",
 			Assumptions: []string{"small-scope hypothesis", "histories are compared up to the first failing statement (what follows an error is not fixed by the property)"},
 		},
-		QuickBudget: 120 * time.Second, ThoroughBudget: 14 * time.Minute, CrashIsViolation: true,
+		QuickBudget: 180 * time.Second, ThoroughBudget: 14 * time.Minute, CrashIsViolation: true,
 		Run: runC03,
 	})
 }
